@@ -12,7 +12,7 @@ def sig_backoff(ev, events, idx):
     if ev.get("op") == "Client":
         return "client-attempts-out-of-bounds"
     if ev.get("sign", 0) < 0:
-        kind = "retry-after" if ev.get("status") in (429, 503) and ev.get("ra") and ev.get("header") in ("negative", "zero", "small", "huge", "datepast", "datefuture") else \
+        kind = "retry-after" if ev.get("status") in (429, 503) and ev.get("ra") and ev.get("header") in ("negative", "zero", "small", "huge", "datepast", "datefuture", "datefar") else \
             ("linear" if ev.get("linear") and ev.get("backoff") and ev.get("enabled") else "computed")
         return "negative-wait-" + kind
     if ev.get("stream") and ev.get("cPrev", 0) < 0:
